@@ -171,8 +171,21 @@ def r1(prog, rep):
 
 
 # ------------------------------------------------------------------------------------------------ R2
+class _PeelFloat(ast.NodeTransformer):
+    """float(E) is E as a Python number (value-preserving for the quantities that size a bit expansion)"""
+
+    def visit_Call(self, node):
+        self.generic_visit(node)
+        if dotted(node.func) == "float" and len(node.args) == 1 and not node.keywords:
+            return node.args[0]
+        return node
+
+
 def bit_count_sufficient(n: ast.AST, depth=0) -> (Optional[bool], str):
     """n bits represent 0..2^n-1; need 2^n - 1 >= ub for integer values in [0, ub]."""
+    if depth == 0:
+        import copy as _copy
+        n = _PeelFloat().visit(_copy.deepcopy(n))
     if depth == 0 and any(isinstance(x, ast.IfExp) and "integer_ub" in norm(x.test) for x in ast.walk(n)):
         # the sizing quantity is selected by `integer_ub is None`: ub in that case, integer_ub otherwise (the caller's bound of the integer
         # factor, checked at the call sites by V2); each case is judged with its own quantity standing for `ub`
